@@ -4,6 +4,7 @@
 with a meta.json that records every quick check's exit code at first contact."""
 import json, os, re, shutil, sys
 root = sys.argv[1]
+TAG = sys.argv[2] if len(sys.argv) > 2 else "eq"
 dst = os.path.join(os.path.dirname(os.path.dirname(os.path.abspath(__file__))), "equivalent")
 os.makedirs(dst, exist_ok=True)
 for prop in sorted(os.listdir(root)):
@@ -16,7 +17,7 @@ for prop in sorted(os.listdir(root)):
         notes = open(os.path.join(d, "notes.md")).read() if os.path.exists(os.path.join(d, "notes.md")) else ""
         title = notes.splitlines()[0].lstrip("# ").strip() if notes else ""
         slug = re.sub(r"[^a-z0-9]+", "-", re.sub(r"^[^—–-]*[—–-]\s*", "", title).lower()).strip("-")[:48].strip("-")
-        sid = "%s-eq-%s-%s" % (prop, k, slug)
+        sid = "%s-%s-%s-%s" % (prop, TAG, k, slug)
         out = os.path.join(dst, sid)
         os.makedirs(out, exist_ok=True)
         shutil.copy(os.path.join(d, "patch.diff"), out)
